@@ -22,8 +22,8 @@ CLAIMS = {
    note="Everything before a region (candidate filtering, region ordering) is an unchecked precondition; rand/itertools contracts are assumed; PreferDifferent / RequireDifferent arms and take_all's maximality are not covered."),
  "C10": dict(level="proof", design="DESIGN.md §3 C10",
    technique="contract-based deductive verification: Verus on CpuMask / BitPosition bodies and the pin loop region; Kani full-domain contract for BitPosition",
-   text="Partial: the mask handed to sched_setaffinity holds exactly the ids of the processor set, for every id in u32 and every mask width (CpuMask::insert = set insertion, width never shrinks; id <-> (word, bit) round trip for every u32).",
-   note="That the kernel applies the mask, thread spawning and the per-thread bookkeeping are outside any contract; SmallVec->Vec rewrite (R4)."),
+   text="Partial: the mask handed to sched_setaffinity holds exactly the ids of the processor set, for every id in u32 and every mask width (CpuMask::insert = set insertion, width never shrinks; id <-> (word, bit) round trip for every u32); and the pin status the library records after a pin (processor known iff the set is a single processor; memory region known iff ALL processors of the set share one region) is proved for the decision chain of pin_current_thread_to over stand-in observers, for any number of processors.",
+   note="That the kernel applies the mask, thread spawning, and the thread-local storage of the pin status (isolation between threads and hardware instances) are outside any contract; SmallVec->Vec rewrite (R4); itertools unique().count() replaced by an assumed shim."),
  "C11": dict(level="proof", design="DESIGN.md §3 C11",
    technique="contract-based deductive verification: Verus on emit() arithmetic regions and CpuMask; Kani on mask equality and the extracted quota min",
    text="Partial: cpulist::emit's grouping step and range arithmetic never panic and describe exactly the run, including runs ending at u32::MAX (found and fixed: a 3+ run ending at u32::MAX panicked); masks are sets independent of width; processor-time quota = min(count, cgroup quota) for all f64.",
